@@ -30,3 +30,13 @@ check("C10", "model_checking",
   "Records: 3 (quick) / 4 (thorough) with all fields distinct and non-default; query keys are non-optional columns; duplicate-id creation and string lt/gt are not judged; SQLite on a scratch file per item.",
   "explicit-state exploration of a reference model (map id -> version) with conformance of every edge and of a query battery against the implementation",
   "DESIGN.md section 4 C10")
+check("C09", "model_checking",
+  "Reference-state graph with edge conformance: breadth-first over every reference state (per stored message: status, retry count, stale flag; which acts were answered) reachable within the depth; every edge {ack, complete the act, advance the clock by 1 ms or by more than the interval, tick, redo, clear(None|pid)} is executed on a fresh real engine by replaying its path under a virtual clock; the rows of the message collection and the deliveries to the acknowledging channel (id, retry_times, content, stored before the handler ran) must equal the prediction. max_message_retry_times in {1,2,3}; in-memory and SQLite store.",
+  "Two processes of a one-interrupt workflow, one acknowledging channel (type=act); depth 5 (memory) / 4 (SQLite) in quick, 7 / 6 in thorough; engine work is drained FIFO after every operation; the tick is the operation the timer issues.",
+  "explicit-state exploration of a reference model of the message table with conformance of every edge against the implementation (virtual clock, explicit ticks)",
+  "DESIGN.md section 4 C09")
+check("C19", "model_checking",
+  "Reference-state graph with edge conformance over (elapsed time, rules fired, task open): for a timed interrupt act and a timed step, every rule set from {1s,2s,1m} in both declaration orders, breadth-first over every state reachable within the depth with {advance 300|800|1100|61000 ms, tick, answer}; every edge replayed on a fresh real engine under a virtual clock; instances of each rule's step created by the edge must equal the prediction: first tick with elapsed >= limit while open, once, never after the task ended, never without a tick; the timed task stays open.",
+  "Virtual clock through the time hook; ticks are explicit; elapsed times within 2 ms of a limit are not judged; depth 6 / 8.",
+  "explicit-state exploration of a reference model (elapsed, fired, open) with conformance of every edge against the implementation under a virtual clock",
+  "DESIGN.md section 4 C19")
